@@ -126,6 +126,7 @@ pub fn run_case(case: &Case, names: &HashMap<String, u16>) {
     }
     let mut tick: u64 = 0;
     let mut o = String::new();
+    kanata_keyberon::layout::verif::LOST_CUSTOM_RELEASES.store(0, std::sync::atomic::Ordering::Relaxed);
     let res = std::panic::catch_unwind(std::panic::AssertUnwindSafe(|| {
         let mut pending: Vec<String> = vec![];
         for tok in case.hist.iter() {
@@ -224,6 +225,7 @@ pub fn run_case(case: &Case, names: &HashMap<String, u16>) {
             writeln!(out, "PANIC tick={} {}", tick, msg.replace('\n', " ")).unwrap();
         }
     }
+    writeln!(out, "INFO lostcr={}", kanata_keyberon::layout::verif::LOST_CUSTOM_RELEASES.load(std::sync::atomic::Ordering::Relaxed)).unwrap();
     out.push_str("TRACE-END\n");
     let stdout = std::io::stdout();
     let mut lk = stdout.lock();
